@@ -253,7 +253,35 @@ func (ex *Exec) ctxType() types.Type {
 	return ex.eng.namedType("context", "timerCtx", true)
 }
 
+// TransportObj stands for the UDP transport returned by transport.New.
+type TransportObj struct{ closed bool }
+
+func (t *TransportObj) HasMethod(name string) bool {
+	return name == "Close" || name == "Address" || name == "Send"
+}
+func (t *TransportObj) Invoke(ex *Exec, fr *frame, method string, args []Value) Value {
+	switch method {
+	case "Close":
+		t.closed = true
+		return nilErr()
+	case "Address":
+		return Iface{}
+	}
+	ex.unsupported("real UDP transport method " + method + " (harnesses use a fake transport)")
+	return nil
+}
+
 func registerEnvStubs() {
+	// internal/pkg/transport.New: succeeds for a literal IP address (no name resolution
+	// needed), fails for anything else
+	stubTable["github.com/gebn/bmc/internal/pkg/transport.New"] = func(ex *Exec, fr *frame, args []Value) Value {
+		addr := ex.concStr(args[0], "transport address")
+		ok := len(addr) > 0 && addr[0] >= '0' && addr[0] <= '9'
+		if !ok {
+			return Tuple{Iface{}, ex.mkError("cannot resolve address", nil)}
+		}
+		return Tuple{Iface{t: ex.eng.namedType("github.com/gebn/bmc/internal/pkg/transport", "transport", true), v: &TransportObj{}}, nilErr()}
+	}
 	bo := func(ex *Exec) Value {
 		return &BackoffObj{}
 	}
